@@ -10,6 +10,8 @@
    the fuel Oplog::open uses always suffices (termination). Partial: the composition "reader of the four
    files = API state for every reachable state" is checked by the independent reader of tools/c06.py
    at every operation boundary, not proved; user_data / reorgs are outside the model. *)
+From HC Require Import Core ClearRefine Unified1 CrashClear1 JsLayout JsLayoutOps.
+From HC Require JsLayoutEx.
 From HC Require Import Base Codec Crypto Storage Bitfield Oplog Merkle SrcConsts ConstTie.
 From HC Require Import Base Codec CodecFacts Crypto Storage Bitfield Oplog OplogFacts.
 From HC Require Merkle.
@@ -225,6 +227,131 @@ Theorem C06_reader_agrees_with_api_state :
             snd (fst (core_get i c {| w_disk := d; w_journal := j; w_events := ev |}))).
 Proof. exact reopen_observations_U. Qed.
 
+Theorem C06_js_layout_storage_opens :
+  forall cr : crypto,
+         crc_ok cr ->
+         (forall x : bytes, Datatypes.length (cr_hash cr x) = 32%nat) ->
+         (forall x : bytes, all_zero (cr_hash cr x) = false) ->
+         (forall x : bytes, bytes_ok (cr_hash cr x) = true) ->
+         forall (kp : keypair) (d : disk) (bs : list bytes) (cl : N -> bool),
+         JsDisk cr kp d bs cl ->
+         exists (c' : core) (d' : disk) (ops : list sop),
+           core_open cr None true d = (d', ops, Ok c') /\
+           JsInv cr c' d' bs cl /\
+           obs_cleared c' d' bs cl /\
+           c_keypair c' = kp /\
+           c_skip c' = 0 /\
+           d_tree d' = d_tree d /\
+           d_data d' = d_data d /\
+           d_bitfield d' = d_bitfield d /\
+           (ops = [] /\ d' = d \/
+            (exists m : N,
+               ops = [ST Oplog m] /\ ENTRIES_OFFSET <= m < f_len (d_oplog d) /\ apply_sops d ops = Some d')) /\
+           core_open cr None true d' = (d', [], Ok c').
+Proof. exact open_JsDisk. Qed.
+
+Theorem C06_js_layout_reopen :
+  forall cr : crypto,
+         crc_ok cr ->
+         (forall x : bytes, Datatypes.length (cr_hash cr x) = 32%nat) ->
+         (forall x : bytes, all_zero (cr_hash cr x) = false) ->
+         (forall x : bytes, bytes_ok (cr_hash cr x) = true) ->
+         forall (c : core) (d : disk) (bs : list bytes) (cl : N -> bool),
+         JsInv cr c d bs cl ->
+         exists c' : core,
+           core_open cr None true d = (d, [], Ok c') /\
+           JsInv cr c' d bs cl /\ obs_cleared c' d bs cl /\ c_keypair c' = c_keypair c /\ c_skip c' = 0.
+Proof. exact reopen_JsInv. Qed.
+
+Theorem C06_own_states_are_js_layout :
+  forall cr : crypto,
+         crc_ok cr ->
+         forall (c : core) (d : disk) (bs : list bytes) (cl : N -> bool),
+         FInv cr c d bs cl -> JsDisk cr (c_keypair c) d bs cl.
+Proof. exact FInv_JsDisk. Qed.
+
+Theorem C06_js_layout_observations :
+  forall (cr : crypto) (c : core) (d : disk) (bs : list bytes) (cl : N -> bool),
+         JsInv cr c d bs cl -> obs_cleared c d bs cl.
+Proof. exact JsInv_observations. Qed.
+
+Theorem C06_js_layout_then_append :
+  forall cr : crypto,
+         crc_ok cr ->
+         (forall x : bytes, Datatypes.length (cr_hash cr x) = 32%nat) ->
+         (forall x : bytes, all_zero (cr_hash cr x) = false) ->
+         (forall x : bytes, bytes_ok (cr_hash cr x) = true) ->
+         (forall sk m : bytes, Datatypes.length (cr_sign cr sk m) = 64%nat) ->
+         (forall sk m : bytes, bytes_ok (cr_sign cr sk m) = true) ->
+         forall (f : option bool) (batch : list bytes) (c : core) (d : disk) (j : list sop) 
+           (ev : list event) (bs : list bytes) (cl : N -> bool) (sk : bytes) (c' : core) 
+           (w' : world) (r : res (N * N)),
+         JsInv cr c d bs cl ->
+         kp_secret (c_keypair c) = Some sk ->
+         sumN (map len (bs ++ batch)) <= u64_max ->
+         NODE_SIZE * (2 * N.of_nat (Datatypes.length (bs ++ batch))) <= u64_max ->
+         core_append cr f batch c {| w_disk := d; w_journal := j; w_events := ev |} = (c', w', r) ->
+         r = Panic frame_msg \/
+         r = Ok (N.of_nat (Datatypes.length (bs ++ batch)), sumN (map len (bs ++ batch))) /\
+         JsInv cr c' (w_disk w') (bs ++ batch) (cl_mask cl (N.of_nat (Datatypes.length bs))) /\
+         c_keypair c' = c_keypair c.
+Proof. exact append_JsInv. Qed.
+
+Theorem C06_js_layout_then_clear :
+  forall cr : crypto,
+         crc_ok cr ->
+         (forall x : bytes, Datatypes.length (cr_hash cr x) = 32%nat) ->
+         (forall x : bytes, all_zero (cr_hash cr x) = false) ->
+         (forall x : bytes, bytes_ok (cr_hash cr x) = true) ->
+         forall (f : option bool) (c : core) (d : disk) (j : list sop) (ev : list event) 
+           (bs : list bytes) (cl : N -> bool) (start end_ : N) (c' : core) (w' : world) 
+           (r : res unit),
+         let n := N.of_nat (Datatypes.length bs) in
+         JsInv cr c d bs cl ->
+         start < n ->
+         start < end_ ->
+         end_ <= u64_max ->
+         core_clear cr f start end_ c {| w_disk := d; w_journal := j; w_events := ev |} = (c', w', r) ->
+         r = Ok tt /\ JsInv cr c' (w_disk w') bs (cl_clear cl start end_) /\ c_keypair c' = c_keypair c.
+Proof. exact clear_JsInv. Qed.
+
+Theorem C06_js_layout_open_append_clear_reopen :
+  forall cr : crypto,
+         crc_ok cr ->
+         (forall x : bytes, Datatypes.length (cr_hash cr x) = 32%nat) ->
+         (forall x : bytes, all_zero (cr_hash cr x) = false) ->
+         (forall x : bytes, bytes_ok (cr_hash cr x) = true) ->
+         (forall sk m : bytes, Datatypes.length (cr_sign cr sk m) = 64%nat) ->
+         (forall sk m : bytes, bytes_ok (cr_sign cr sk m) = true) ->
+         forall (kp : keypair) (d : disk) (bs : list bytes) (cl : N -> bool) (sk : bytes) 
+           (f1 : option bool) (batch : list bytes) (f2 : option bool) (start end_ : N),
+         JsDisk cr kp d bs cl ->
+         kp_secret kp = Some sk ->
+         sumN (map len (bs ++ batch)) <= u64_max ->
+         NODE_SIZE * (2 * N.of_nat (Datatypes.length (bs ++ batch))) <= u64_max ->
+         start < N.of_nat (Datatypes.length (bs ++ batch)) ->
+         start < end_ ->
+         end_ <= u64_max ->
+         exists (c0 : core) (d0 : disk) (ops0 : list sop),
+           core_open cr None true d = (d0, ops0, Ok c0) /\
+           obs_cleared c0 d0 bs cl /\
+           (forall (c1 : core) (w1 : world) (r1 : res (N * N)),
+            core_append cr f1 batch c0 {| w_disk := d0; w_journal := []; w_events := [] |} = (c1, w1, r1) ->
+            r1 = Panic frame_msg \/
+            r1 = Ok (N.of_nat (Datatypes.length (bs ++ batch)), sumN (map len (bs ++ batch))) /\
+            obs_cleared c1 (w_disk w1) (bs ++ batch) (cl_mask cl (N.of_nat (Datatypes.length bs))) /\
+            (forall (c2 : core) (w2 : world) (r2 : res unit),
+             core_clear cr f2 start end_ c1 w1 = (c2, w2, r2) ->
+             r2 = Ok tt /\
+             obs_cleared c2 (w_disk w2) (bs ++ batch)
+               (cl_clear (cl_mask cl (N.of_nat (Datatypes.length bs))) start end_) /\
+             (exists c3 : core,
+                core_open cr None true (w_disk w2) = (w_disk w2, [], Ok c3) /\
+                obs_cleared c3 (w_disk w2) (bs ++ batch)
+                  (cl_clear (cl_mask cl (N.of_nat (Datatypes.length bs))) start end_) /\ 
+                c_keypair c3 = kp))).
+Proof. exact js_open_append_clear_reopen. Qed.
+
 Print Assumptions C06_header_roundtrip.
 Print Assumptions C06_entry_roundtrip.
 Print Assumptions C06_entry_encodes.
@@ -238,3 +365,16 @@ Print Assumptions C06_reader_agrees_with_api_state.
 Print Assumptions C06_source_codecs.
 Print Assumptions C06_source_codecs_meaning.
 Print Assumptions C06_oplog_interpreter.
+Print Assumptions C06_js_layout_storage_opens.
+Print Assumptions C06_js_layout_reopen.
+Print Assumptions C06_own_states_are_js_layout.
+Print Assumptions C06_js_layout_observations.
+Print Assumptions C06_js_layout_then_append.
+Print Assumptions C06_js_layout_then_clear.
+Print Assumptions C06_js_layout_open_append_clear_reopen.
+Print Assumptions JsLayoutEx.pattern_p_n_p_p_n_p.
+Print Assumptions JsLayoutEx.toy_completed_batch.
+Print Assumptions JsLayoutEx.toy_unfinished_batch.
+Print Assumptions JsLayoutEx.toy_slot1_only.
+Print Assumptions JsLayoutEx.open_result_is_YInv_refuted.
+Print Assumptions JsLayoutEx.JsDisk_reflag.
